@@ -1104,3 +1104,104 @@ Proof.
   - rewrite Z.compare_eq_iff in H. rewrite Z.compare_lt_iff in *. lia.
   - rewrite Z.compare_eq_iff in H0. rewrite Z.compare_lt_iff in *. lia.
 Qed.
+
+(** ** the generic set theorems instantiated with the real comparison [cmp_val] on number keys *)
+Definition keyd (k : option fn) (x : val) : val := match keyfn k x with Some v => v | None => VNull end.
+Definition cz (a b : val) : comparison := Z.compare (numz0 a) (numz0 b).
+Definition num_keys (k : option fn) (l : list val) : Prop :=
+  Forall (fun x => exists v, keyfn k x = Some v /\ is_num v = true) l.
+
+Lemma cmp_laws_cz : cmp_laws cz.
+Proof.
+  destruct cmp_laws_Z as [H1 [H2 [H3 [H4 H5]]]]. unfold cz.
+  repeat split; intros; eauto.
+Qed.
+Lemma num_keys_ok k l : num_keys k l -> keys_ok (keyfn k) (keyd k) l.
+Proof.
+  intros H. eapply Forall_impl; [|exact H]. intros x [v [Hv _]]. unfold keyd. rewrite Hv. reflexivity.
+Qed.
+Lemma num_keys_cmp k a b : num_keys k a -> num_keys k b -> cmp_ok cmp_val (keyd k) cz a b.
+Proof.
+  intros Ha Hb x y Hx Hy.
+  destruct (proj1 (Forall_forall _ _) Ha x Hx) as [v [Hv Nv]].
+  destruct (proj1 (Forall_forall _ _) Hb y Hy) as [w [Hw Nw]].
+  unfold keyd. rewrite Hv, Hw. unfold cz.
+  destruct v; try discriminate; destruct w; try discriminate; reflexivity.
+Qed.
+
+(** ** the classifier's error: a number and a string among the keys *)
+Lemma classify_none ks : forall st,
+  get_sort_type st ks = None ->
+  match st with
+  | STUnknown => (exists a, In a ks /\ is_num a = true) /\ (exists b, In b ks /\ is_str b = true)
+  | STNumber => exists b, In b ks /\ is_str b = true
+  | STString => exists a, In a ks /\ is_num a = true
+  | STUnspec => True
+  end.
+Proof.
+  induction ks as [|k ks IH]; intros st H; [discriminate|].
+  destruct st; [| | exact I |].
+  - (* STNumber *) destruct k; cbn in H; try discriminate.
+    + destruct (IH _ H) as [b [Hb Sb]]. exists b. simpl; auto.
+    + destruct (IH _ H) as [b [Hb Sb]]. exists b. simpl; auto.
+    + exists (VStr s). simpl; auto.
+  - (* STString *) destruct k; cbn in H; try discriminate.
+    + exists (VNum z). simpl; auto.
+    + exists VNegZero. simpl; auto.
+    + destruct (IH _ H) as [b [Hb Sb]]. exists b. simpl; auto.
+  - (* STUnknown *) destruct k; cbn in H; try discriminate.
+    + destruct (IH _ H) as [b [Hb Sb]]. split; [exists (VNum z)|exists b]; simpl; auto.
+    + destruct (IH _ H) as [b [Hb Sb]]. split; [exists VNegZero|exists b]; simpl; auto.
+    + destruct (IH _ H) as [b [Hb Sb]]. split; [exists b|exists (VStr s)]; simpl; auto.
+Qed.
+
+Lemma all_comparable_pairs ks :
+  all_comparable ks = true ->
+  ForallOrdPairs (fun a b => is_some (cmp_val a b) = true /\ is_some (cmp_val b a) = true) ks.
+Proof.
+  induction ks as [|k ks IH]; intros H; [constructor|].
+  cbn [all_comparable] in H. apply andb_true_iff in H. destruct H as [H1 H2].
+  constructor; [|apply IH; exact H2].
+  apply Forall_forall. intros b Hb. rewrite forallb_forall in H1. specialize (H1 b Hb).
+  apply andb_true_iff in H1. exact H1.
+Qed.
+
+Lemma num_str_incomparable a b : is_num a = true -> is_str b = true ->
+  is_some (cmp_val a b) = false /\ is_some (cmp_val b a) = false.
+Proof. destruct a; try discriminate; destruct b; try discriminate; intros; split; reflexivity. Qed.
+
+Lemma mixed_not_comparable ks a b :
+  In a ks -> is_num a = true -> In b ks -> is_str b = true -> all_comparable ks = false.
+Proof.
+  intros Ha Na Hb Sb. destruct (all_comparable ks) eqn:E; [|reflexivity]. exfalso.
+  apply all_comparable_pairs in E.
+  destruct (num_str_incomparable a b Na Sb) as [N1 N2].
+  destruct (ForallOrdPairs_In E a b Ha Hb) as [Heq|[[H1 H2]|[H1 H2]]].
+  - subst b. destruct a; discriminate.
+  - congruence.
+  - congruence.
+Qed.
+
+(** sort.rs agrees with the definition whenever the classifier does not send the keys to the
+    comparator path *)
+Lemma sort_refines_classified k l :
+  (forall ks, mapM (keyfn k) l = Some ks -> get_sort_type STUnknown ks <> Some STUnspec) ->
+  sort_impl k l = sort_spec k l.
+Proof.
+  intros H. unfold sort_impl, sort_spec. destruct (length l <=? 1); [reflexivity|].
+  destruct (mapM (keyfn k) l) as [ks|] eqn:Ek; [|reflexivity]. cbn [bind]. specialize (H ks eq_refl).
+  destruct (get_sort_type STUnknown ks) as [st|] eqn:Es.
+  - destruct st.
+    + destruct (sort_fast_paths l ks STNumber Es (or_introl eq_refl)) as [Hc Hs]. rewrite Hc. exact Hs.
+    + destruct (sort_fast_paths l ks STString Es (or_intror eq_refl)) as [Hc Hs]. rewrite Hc. exact Hs.
+    + congruence.
+    + (* STUnknown: no key at all *)
+      destruct ks as [|k0 ks]; [|destruct k0; cbn in Es; try discriminate;
+        match type of Es with get_sort_type ?s ?r = _ =>
+          exfalso; clear -Es; revert Es; generalize r; intro r0; induction r0 as [|k' r' IH'];
+          intros Es; [discriminate | destruct k'; cbn in Es; try discriminate; auto] end].
+      unfold sort_keyed_impl. rewrite Es. destruct l; reflexivity.
+  - unfold sort_keyed_impl. rewrite Es. cbn [bind].
+    destruct (classify_none ks STUnknown Es) as [[a [Ha Na]] [b [Hb Sb]]].
+    rewrite (mixed_not_comparable ks a b Ha Na Hb Sb). reflexivity.
+Qed.
